@@ -273,7 +273,8 @@ def adfStep (a : AdfSt) (l : String) (ws : List String) : Option (List String ×
   | ["randrepro", _, _, mode, _] =>
     -- StdRng is not modelled: the specification only says that a seeded random search is
     -- reproducible (same object twice, and a twin) and returns the prescribed set
-    let spec := specAnswer (if mode == "stable" then "stable" else "twoval") a.n a.tts
+    let spec := if a.n ≤ 7 then specAnswer (if mode == "stable" then "stable" else "twoval") a.n a.tts
+                else modelAnswer (if mode == "stable" then "stable" else "twoval") a.n a.fms.toList
     some ([l, s!"~ reproducible same-object=1 twin=1 set={spec}"], a)
   | ["adf", n] =>
     let n := n.toNat?.getD 0
